@@ -305,10 +305,23 @@ func (v *queue_[V]) AddValue(value V) {
 }
 
 func (v *queue_[V]) RemoveAll() {
-	v.mutex_.Lock()
-	v.available_ = make(chan bool, v.capacity_)
-	v.values_ = List[V](v.GetClass().Notation()).Make()
-	v.mutex_.Unlock()
+	// Discard the available values one at a time, exactly as RemoveHead would
+	// take them.  The channel is never replaced, so a goroutine blocked on this
+	// queue cannot be stranded on a stale channel, a token never outlives its
+	// value, and no unsynchronized write races with AddValue or RemoveHead.
+	for {
+		select {
+		case _, ok := <-v.available_:
+			if !ok {
+				return // The queue is closed and has been drained.
+			}
+			v.mutex_.Lock()
+			v.values_.RemoveValue(1)
+			v.mutex_.Unlock()
+		default:
+			return // No more values are available.
+		}
+	}
 }
 
 // Sequential
